@@ -25,7 +25,7 @@ import time
 import zlib
 from typing import Any, Dict, List, Optional, Sequence, Tuple
 
-from ..core import Ctx, HarnessError, Report, Violation, mix32
+from ..core import jhash, Ctx, HarnessError, Report, Violation, mix32
 from .. import gen_enc as G
 from .. import gen_state as S
 from .. import pycore
@@ -497,10 +497,58 @@ def groups(seed: int, tier: str) -> List[Tuple[int, int, bytes]]:
     return out
 
 
+NEAR_FLOW = {"JP", "JPZ", "JPNZ", "JPC", "JPNC", "CALL"}
+LISTING_LEN = 6
+LISTINGS_PER_ASSEMBLER = 8
+
+
+def listing_violations(history: List[List[Tuple[str, str]]]) -> List[Violation]:
+    """history = listings assembled one after the other on ONE Assembler object; each listing is a list of
+    (text, hex of the bytes that text assembles to alone).  Every listing must assemble to the concatenation of its
+    lines' stand-alone bytes: a disassembled listing is accepted text, and assembling it must not depend on the other
+    lines of the listing or on what the Assembler object assembled before."""
+    from sc62015.pysc62015.sc_asm import Assembler, AssemblerError
+
+    out: List[Violation] = []
+    asm = Assembler()
+    for li, listing in enumerate(history):
+        src = ".ORG 0x01000\n" + "\n".join(t for t, _ in listing) + "\n"
+        expected = b"".join(bytes.fromhex(h) for _, h in listing)
+        case = {"kind": "listing", "history": [[list(x) for x in l] for l in history[: li + 1]]}
+        try:
+            got = bytes(asm.assemble(src).as_binary())
+        except AssemblerError as exc:
+            out.append(Violation("listing", "listing of texts that each assemble alone", "listing rejected: " + norm_error(str(exc))[:80],
+                                 case, f"listing #{li} {[t for t, _ in listing]}: {str(exc)[:160]}"))
+            break
+        except Exception as exc:  # noqa: BLE001
+            out.append(Violation("listing", "listing of texts that each assemble alone", f"listing raises {type(exc).__name__}",
+                                 case, f"listing #{li}: {type(exc).__name__}: {str(exc)[:160]}"))
+            break
+        if got != expected:
+            # first differing line
+            off = 0
+            bad = "?"
+            for t, h in listing:
+                n = len(h) // 2
+                if got[off:off + n] != bytes.fromhex(h):
+                    r = TP.tokens(bytes.fromhex(h) + G.NOP_PAD)
+                    bad = where_of(r[0]) if r else t
+                    break
+                off += n
+            out.append(Violation("listing", f"line {bad}", "bytes in a listing differ from the same line assembled alone"
+                                 + (" (first listing on a fresh Assembler)" if li == 0 else " (Assembler object reused)"),
+                                 case, f"listing #{li} {[t for t, _ in listing]}: got {got.hex()} expected {expected.hex()}"))
+            break
+    return out
+
+
 def _shard(task: Tuple[int, int, int, str, float]) -> Report:
     shard, nshards, seed, tier, deadline = task
     rep = Report()
     gs = groups(seed, tier)
+    good: List[Tuple[str, str]] = []
+    history: List[List[Tuple[str, str]]] = []
     for gi, (op, b2, tail) in enumerate(gs):
         if gi % nshards != shard:
             continue
@@ -540,6 +588,18 @@ def _shard(task: Tuple[int, int, int, str, float]) -> Report:
                 sample = {"code": code.hex(), "text": info.get("text"), "reassembled": info.get("reassembled"),
                           "where": where, "violations": [v.fingerprint for v in vs]}
             rep.case(ntkey, lab, sample)
+            # listings: texts that round-trip alone, assembled together on a reused Assembler object
+            if not vs and info.get("reassembled") and mn not in NEAR_FLOW and info.get("text"):
+                good.append((info["text"], info["reassembled"]))
+                if len(good) >= LISTING_LEN:
+                    history.append(good)
+                    good = []
+                    for v in listing_violations(history):
+                        rep.violate(v)
+                    rep.case("listing:" + jhash(history[-1]), ["kind:listing", f"listing-on-assembler-use:{len(history)}"],
+                             {"listing": [t for t, _ in history[-1]]} if rep.labels.get("kind:listing", 0) % 50 == 1 else None)
+                    if len(history) >= LISTINGS_PER_ASSEMBLER:
+                        history = []
     return rep
 
 
@@ -578,6 +638,8 @@ def run(ctx: Ctx) -> Report:
 
 
 def replay(ctx: Ctx, case: Dict[str, Any]) -> List[Violation]:
+    if case.get("kind") == "listing":
+        return listing_violations([[tuple(x) for x in l] for l in case["history"]])
     code = bytes.fromhex(case["code"])
     vs, _, _ = verdict(code, case.get("state"), recheck=True)
     return vs
